@@ -158,9 +158,22 @@ class H11Protocol:
                     )
                 )
 
+            final_request = self.connection.their_state is h11.MUST_CLOSE
             try:
                 event = self.connection.next_event()
             except h11.RemoteProtocolError as error:
+                if (
+                    final_request
+                    and self.stream is not None
+                    and self.connection.our_state in {h11.SEND_RESPONSE, h11.SEND_BODY}
+                ):
+                    # Data pipelined after the connection's final
+                    # request, it won't be processed. Wait for the
+                    # response in progress (which closes the
+                    # connection) rather than cutting it short.
+                    await self.can_read.clear()
+                    await self.can_read.wait()
+                    break
                 if self.connection.our_state in {h11.IDLE, h11.SEND_RESPONSE}:
                     await self._send_error_response(error.error_status_hint)
                 await self.send(Closed())
